@@ -67,19 +67,24 @@ def flush (s : St) : St × Option EK :=
       | some k => ({ r.1 with buf := s.buf.drop r.2.1, err := some k }, some k)   -- keep the unwritten tail, stick
       | none => ({ r.1 with buf := [] }, none)
 
+/-- one pass through the body of the loop of `bufio.Writer.Write` (entered with `len(p) > b.Available()` and
+    `b.err == nil`): the new state and the number `n` of bytes of `p` consumed -/
+def loopBody (s : St) (p : Bytes) : St × Nat :=
+  if s.buf.isEmpty then
+    -- large write, empty buffer: `n, b.err = b.wr.Write(p)`
+    let r := sinkWrite s p
+    ({ r.1 with err := if r.2.2 then some .sink else none }, r.2.1)
+  else
+    -- `n = copy(b.buf[b.n:], p); b.n += n; b.Flush()`
+    let n := s.avail
+    ((flush { s with buf := s.buf ++ p.take n }).1, n)
+
 /-- `bufio.Writer.Write`: the loop `for len(p) > b.Available() && b.err == nil`, with fuel; `nn` accumulates -/
 def bwrite : Nat → St → Bytes → Nat → St × Nat × Option EK
   | 0, s, _, nn => (s, nn, s.err)
   | fuel + 1, s, p, nn =>
     if p.length > s.avail ∧ s.err = none then
-      if s.buf.isEmpty then
-        -- large write, empty buffer: `n, b.err = b.wr.Write(p)`
-        let r := sinkWrite s p
-        bwrite fuel { r.1 with err := if r.2.2 then some .sink else none } (p.drop r.2.1) (nn + r.2.1)
-      else
-        -- `n = copy(b.buf[b.n:], p); b.n += n; b.Flush()`
-        let n := s.avail
-        bwrite fuel (flush { s with buf := s.buf ++ p.take n }).1 (p.drop n) (nn + n)
+      bwrite fuel (loopBody s p).1 (p.drop (loopBody s p).2) (nn + (loopBody s p).2)
     else
       match s.err with
       | some e => (s, nn, some e)                            -- `if b.err != nil { return nn, b.err }`
